@@ -25,6 +25,7 @@ TRANSLATOR_PARTS += ["trmatch"]
 # (translate/melody.py -> lean/MirGen/Melody.lean); Props/C04_GenMelody.lean proves the generated definitions equal to the
 # hand-written melody model for all inputs; suite `gen_melody` runs them (driver op `gen.melody`) against the real functions
 TRANSLATOR_PARTS += ["melody"]
+TRANSLATOR_PARTS += ["beat"]     # trim_beats, _get_reference_beat_variations regenerated (lean/MirGen/Beat.lean); Props/C04_GenBeat.lean; suite gen_beat
 _here = os.path.dirname(os.path.abspath(__file__))
 _props = os.path.join(os.path.dirname(os.path.dirname(_here)), "lean", "MirProofs", "Props")
 LEAN_MODULES = sorted("MirProofs.Props." + os.path.basename(f)[:-5]
@@ -362,6 +363,106 @@ def _suite_gen_melody(rng, tier, shard, nshards):
 
 
 SUITES["gen_melody"] = suite_gen_melody
+
+
+# ------------------------------------------------------------------------------------------------
+# suite gen_beat: the GENERATED beat definitions (lean/MirGen/Beat.lean, driver op `gen.beat`) vs the real functions, and the
+# primitives of lean/MirModel/PyBeat.lean (`pybeat.*`: np.arange, np.interp, a[k::2]) vs NumPy — the translator's semantic
+# assumptions
+
+def _gb_available():
+    """the functions the translator emitted on THIS run (driver op `gen.beat "?"`)"""
+    import core
+    import proto
+    try:
+        outs = core.run_driver(["0 gen.beat %s\n" % proto.enc("?")])
+        v = proto.dec_line(outs[0])[1]
+    except Exception:  # noqa: BLE001
+        return set()
+    return set(v) if isinstance(v, list) else set()
+
+
+def _gb_case(fn, args, call, tag, nontrivial=True):
+    from suites import beat as BS
+    return Case("gen.beat", [fn] + list(args), call, tag=tag, nontrivial=nontrivial,
+                info={"op": "gen.beat", "fn": fn, "args": BS.jargs(list(args))})
+
+
+def _gb_prim_cases(rng, tier):
+    import itertools
+    import numpy as np
+    import gen
+    from fractions import Fraction as Fr
+    halves = [Fr(k, 2) for k in range(-2, 9)]
+    for start, stop in itertools.product(halves[::2], halves):
+        for step in (Fr(1, 2), Fr(1), Fr(3, 2), Fr(1, 4)):
+            yield Case("pybeat.arange", [start, stop, step],
+                       lambda a=start, b=stop, c=step: np.arange(float(a), float(b), float(c)), tag="prim arange",
+                       info={"op": "pybeat.arange", "args": [str(start), str(stop), str(step)]})
+    vals = [Fr(0), Fr(1, 2), Fr(1), Fr(3, 2), Fr(2), Fr(5, 2), Fr(-1), Fr(3), Fr(7, 4)]
+    for lx, lp, lf in itertools.product(range(4), range(5), range(5)):
+        if lp != lf and rng.random() < 0.5:
+            continue
+        for _ in range(2 if tier == "quick" else 8):
+            xs = [rng.choice(vals) for _ in range(lx)]
+            xp = sorted(rng.choice(vals) for _ in range(lp))                 # non-decreasing, duplicates on purpose
+            if rng.random() < 0.5:
+                xp = [Fr(i) for i in range(lp)]
+            fp = [rng.choice(vals) * 3 for _ in range(lf)]
+            yield Case("pybeat.interp", [xs, xp, fp],
+                       lambda xs=xs, xp=xp, fp=fp: np.interp(gen.arr(xs), gen.arr(xp), gen.arr(fp)),
+                       tag="prim interp %s" % ("equal" if lp == lf else "unequal"),
+                       info={"op": "pybeat.interp", "args": [[str(v) for v in w] for w in (xs, xp, fp)]})
+    for n in range(7):
+        a = [Fr(rng.randint(0, 64), 32) for _ in range(n)]
+        for k in range(4):
+            yield Case("pybeat.step2", [a, k], lambda a=a, k=k: gen.arr(a)[k::2], tag="prim step2",
+                       info={"op": "pybeat.step2", "args": [[str(v) for v in a], k]})
+
+
+def suite_gen_beat(rng, tier, shard, nshards):
+    avail = _gb_available()
+    for c in _suite_gen_beat(rng, tier, shard, nshards):
+        if c.op != "gen.beat" or c.args[0] in avail:
+            yield c
+
+
+def _suite_gen_beat(rng, tier, shard, nshards):
+    """ALL beat lists of length <= 3 (quick) / 4 over a 4-point lattice (duplicates included) through
+    `_get_reference_beat_variations` and `trim_beats` with the threshold on / between / outside the beats; the existing
+    beat pre-processing stream re-targeted at the generated definitions; the run-time primitives against NumPy"""
+    import itertools
+    import mir_eval.beat as B
+    from fractions import Fraction as Fr
+    from suites import beat as BS
+    lat = [Fr(5), Fr(11, 2), Fr(6), Fr(29, 4)]
+    k = 0
+    for n in range(0, 4 if tier == "quick" else 5):
+        for combo in itertools.combinations_with_replacement(lat, n):
+            k += 1
+            if k % nshards != shard:
+                continue
+            x = list(combo)
+            yield _gb_case("_get_reference_beat_variations", [x],
+                           lambda x=x: list(B._get_reference_beat_variations(BS.A(x))), "all n=%d" % n, n > 1)
+            for t in (None, Fr(5), Fr(11, 2), Fr(23, 4), Fr(8), Fr(0)):
+                call = (lambda x=x: B.trim_beats(BS.A(x))) if t is None else (lambda x=x, t=t: B.trim_beats(BS.A(x), float(t)))
+                yield _gb_case("trim_beats", [x, t], call, "all n=%d" % n, n > 0)
+            # not sorted (trim_beats does not validate)
+            if n >= 2:
+                y = x[::-1]
+                yield _gb_case("trim_beats", [y, Fr(11, 2)], lambda y=y: B.trim_beats(BS.A(y), 5.5), "unsorted n=%d" % n)
+    for c in BS.SUITES["beat.pre"](rng, tier, shard, nshards):
+        if c.op in ("beat.trim_beats", "beat._get_reference_beat_variations"):
+            fn = c.op.split(".", 1)[1]
+            yield Case("gen.beat", [fn] + list(c.args), c.call, tol=c.tol, tag="gen " + c.tag,
+                       info=dict(c.info or {}, op="gen.beat", fn=fn), nontrivial=c.nontrivial, post=c.post)
+    if shard == 0:
+        for c in _gb_prim_cases(rng, tier):
+            yield c
+
+
+SUITES["gen_beat"] = suite_gen_beat
 
 CHECKERS = {"documented_defaults": check_defaults}
 ORACLES = {"documented_defaults": gen_defaults}
